@@ -336,6 +336,17 @@ def prove(name, hyps, goal, timeout_ms=30000, rounds=6, use_cvc5=True, quant_fre
     status, detail, model_env, rnd = "unknown", "", {}, 0
     for rnd in range(rounds + 1):
         r = s.check()
+        if r == z3.unknown:
+            # slow queries are the unstable ones: retry the same assertions with other seeds before giving up
+            for seed in (1, 2):
+                s2 = z3.Solver()
+                s2.set("timeout", int(timeout_ms))
+                s2.set("random_seed", seed)
+                s2.add(*s.assertions())
+                r = s2.check()
+                if r != z3.unknown:
+                    s = s2
+                    break
         if r == z3.unsat:
             return Result(name, "proved", "z3" if rnd == 0 else "z3+cegar", time.time() - t0, rounds=rnd)
         if r == z3.unknown:
